@@ -1,0 +1,11 @@
+//go:build verif
+
+package vpoint
+
+import "github.com/basecomplextech/spec/internal/verifpoint"
+
+// Func receives a point name and up to three values.
+type Func = verifpoint.Func
+
+// Set installs the callback invoked at every hook point (nil removes it).
+func Set(f Func) { verifpoint.Set(f) }
